@@ -1,5 +1,6 @@
 // Guarded buffers of exactly the declared extent, CPU-mask hook, limb-vector helpers.
 #pragma once
+#include <sys/mman.h>
 #include "common.hpp"
 #include "allocwrap.hpp"
 
@@ -75,7 +76,21 @@ struct GBuf {
     memset(p + bytes, CAN, rg);
 #endif
   }
+  // page mode: the buffer lives in its own mapping (start at `offset` from a page boundary) so that it can be made read-only
+  // for the duration of a call: a write into a const operand faults even if the old value is put back afterwards
+  bool paged = false; size_t map_len = 0;
+  void init_pages(size_t nbytes, size_t offset = 0) {
+    release();
+    bytes = nbytes; off = offset; lg = rg = 0; paged = true;
+    map_len = (offset + nbytes + 4095) / 4096 * 4096 + 4096;  // one spare page behind: reading past the end is not this trap's business
+    void* q = mmap(0, map_len, PROT_READ | PROT_WRITE, MAP_PRIVATE | MAP_ANONYMOUS, -1, 0);
+    if (q == MAP_FAILED) machinery_error("mmap");
+    base = (uint8_t*)q; p = base + offset; total = map_len;
+  }
+  void protect(bool on) { if (paged && base && mprotect(base, map_len, on ? PROT_READ : (PROT_READ | PROT_WRITE))) machinery_error("mprotect"); }
+  bool contains(const void* a) const { return base && (const uint8_t*)a >= base && (const uint8_t*)a < base + (paged ? map_len : total); }
   void release() {
+    if (base && paged) { munmap(base, map_len); base = p = 0; paged = false; return; }
     if (base) {
 #if VF_ASAN
       if (lg) __asan_unpoison_memory_region(base, lg);
